@@ -184,5 +184,8 @@ func evaluateFunctionCall(call *tree.FunctionCall, retriever variable.Retriever,
 	if err != nil {
 		return nil, fmt.Errorf("call to function %s failed: %w", call.FunctionID, err)
 	}
+	if result == nil {
+		return nil, fmt.Errorf("function %s did not return a value", call.FunctionID)
+	}
 	return result, nil
 }
